@@ -165,6 +165,13 @@ func session(kind int, id int) (obs []string, late func() []string, err error) {
 				return
 			}
 			sobs = append(sobs, fmt.Sprintf("msg:%d:%s", h.OpCode, dg(string(p))))
+			// an empty ping of the server's own before the echo (the client's helper answers it)
+			if kind%2 == 0 {
+				if e = ws.WriteFrame(cb, ws.NewPingFrame(nil)); e != nil {
+					serr = e
+					return
+				}
+			}
 			// echo through a pooled writer
 			w := wsutil.GetWriter(cb, ws.StateServerSide, h.OpCode, 512)
 			_, e = w.Write(p)
@@ -222,6 +229,12 @@ func session(kind int, id int) (obs []string, late func() []string, err error) {
 			if e != nil {
 				cerr = e
 				return
+			}
+			if mi%2 == 1 { // an empty ping: the handler answers those from a precompiled frame
+				if e = ws.WriteFrame(ca, ws.MaskFrameInPlace(ws.NewPingFrame(nil))); e != nil {
+					cerr = e
+					return
+				}
 			}
 			if mi%2 == 0 { // a ping in between, answered by the server's handler
 				if e = ws.WriteFrame(ca, ws.MaskFrameInPlace(ws.NewPingFrame([]byte("ping-"+tag)))); e != nil {
